@@ -42,6 +42,18 @@ func c02seq(idx int) []resp.Value {
 			vs = append(vs, gen.Tree(r, gen.Opt{MaxBulk: max, MaxArity: 6, MaxDepth: 3}, 0))
 		}
 	}
+	// every 10th sequence carries one large bulk (around the 64 KiB mark and beyond) in the middle, so that
+	// buffer-growth and read-ahead paths are exercised with data of the following value already available
+	if idx%10 == 3 {
+		size := rng.Pick(r, []int{65533, 65534, 65535, 65536, 65537, 65538, 70000, 131071, 131072, 131073, 200000, 262144})
+		big := resp.Bulk(r.Bytes(size))
+		if r.Bool() {
+			big = resp.CmdB([]byte("SET"), []byte("k"), r.Bytes(size))
+		}
+		at := r.Intn(len(vs) + 1)
+		vs = append(vs[:at:at], append([]resp.Value{big}, vs[at:]...)...)
+		vs = append(vs, resp.Cmd("GET", "after-the-large-value"))
+	}
 	vs = append(vs, resp.Int(int64(idx)))
 	return vs
 }
@@ -201,19 +213,34 @@ func c02run(idx int) run.Result {
 	}
 	var scheds []sched
 	scheds = append(scheds, sched{"whole", [][]byte{stream}, ""})
-	scheds = append(scheds, sched{"1-byte", fixedChunks(stream, 1, 0), "all"})
-	scheds = append(scheds, sched{"2-byte/0", fixedChunks(stream, 2, 0), "all"})
-	scheds = append(scheds, sched{"2-byte/1", fixedChunks(stream, 2, 1), "all"})
-	scheds = append(scheds, sched{"3-byte", fixedChunks(stream, 3, 0), "all"})
+	large := len(stream) > 20000
+	if large {
+		for _, sz := range []int{65536, 65535, 32768, 4096, 1000} {
+			scheds = append(scheds, sched{fmt.Sprintf("%d-byte/0", sz), fixedChunks(stream, sz, 0), "all"})
+			scheds = append(scheds, sched{fmt.Sprintf("%d-byte/1", sz), fixedChunks(stream, sz, 1+r.Intn(sz)), "all"})
+		}
+		scheds = append(scheds, sched{"1-byte", fixedChunks(stream, 1, 0), "all"})
+	} else {
+		scheds = append(scheds, sched{"1-byte", fixedChunks(stream, 1, 0), "all"})
+		scheds = append(scheds, sched{"2-byte/0", fixedChunks(stream, 2, 0), "all"})
+		scheds = append(scheds, sched{"2-byte/1", fixedChunks(stream, 2, 1), "all"})
+		scheds = append(scheds, sched{"3-byte", fixedChunks(stream, 3, 0), "all"})
+	}
 	// every 2-way split point (all of them for short streams; for long ones all
 	// structural offsets plus a sample of payload offsets)
 	for o := 1; o < len(stream); o++ {
 		if len(stream) > 400 && (cls[o] == 'B' || cls[o] == 'L') && !r.Chance(1, 1+len(stream)/200) {
 			continue
 		}
+		if large && (cls[o] == 'B' || cls[o] == 'L') && !r.Chance(1, 40) {
+			continue
+		}
 		scheds = append(scheds, sched{fmt.Sprintf("split@%d", o), chunkAt(stream, []int{o}), string(cls[o])})
 	}
 	nRandom := 32
+	if large {
+		nRandom = 12
+	}
 	for k := 0; k < nRandom; k++ {
 		cuts := randomCuts(r, len(stream), 2+r.Intn(12))
 		scheds = append(scheds, sched{fmt.Sprintf("random%v", cuts), chunkAt(stream, cuts), "k-way"})
